@@ -239,7 +239,7 @@ func runC19(o *Out) {
 				}
 				// an empty window inside a range counts as overlapping (the code keeps features
 				// spanning a zero-length slice); the residue reading is claimed for lo < up
-				if lo < up && !sites && len(d) > 0 && !hasAmbiguous(l) && gts.Overlap(lo, up)(f) != ov {
+				if lo < up && !sites && len(d) > 0 && gts.Overlap(lo, up)(f) != ov {
 					o.Violate("overlap-vs-denotation", join("overlap", locSx(l), itoa(lo), itoa(up)), "")
 				}
 				in := true
